@@ -22,11 +22,19 @@ def main():
         except Exception:
             print(f"{key}: CRASH"); traceback.print_exc(); continue
         print(f"{key}: {len(obs)} obligations, paths={vc.n_paths}, gen {time.time()-t0:.2f}s, feas-calls={vc.solver_calls}")
+        mf = []
         for ob in obs:
-            st, dt, detail = check_obligation(vc, ob)
+            st, dt, detail = check_obligation(vc, ob, 3000 if ob.kind == "mustfail" else 10000)
+            if ob.kind == "mustfail":
+                mf.append(st)
+                continue
             flag = "" if st == "proved" else "   <<<<<<"
-            print(f"   {st:8s} {dt:6.2f}s {ob.kind:9s} {ob.name}{flag}")
+            print(f"   {st:8s} {dt:6.2f}s {ob.kind:9s} {ob.name} [{ob.info.get('path','')}]{flag}")
             if st != "proved" and "-v" in sys.argv:
                 print("      ", ob.info.get("clause")); print("      ", detail[:1500])
+        if c.get("mustfail"):
+            print("   mustfail guard:", "OK (not provable)" if any(x != "proved" for x in mf) else "ENGINE UNSOUND: wrong postcondition proved", mf)
+        else:
+            print("   (no mustfail guard)")
 
 main()
